@@ -311,6 +311,18 @@ fn judge(c: &Case, ds: &[CavDisplay2D], rep: &mut Report) {
         let (a, b) = (iv[0], iv[1]);
         let start = k;
         if k >= ds.len() { rep.finding("oracle", &["C11", "C13"], "missing-pieces", input.clone(), String::new()); return; }
+        if a == b {
+            // an empty range [a,a]: C11 / C13 speak about intervals with distinct end points; what remains is C12's
+            // sample count for every (empty) piece returned for it — one, or several when g' vanishes at a
+            let mut m = 0;
+            // (when g' vanishes identically the end-point shrink by tol produces slivers [a, a+tol], [a+tol, a])
+            while k < ds.len() && (ds[k].a - a).abs() <= 2.0 * c.cfg.tol.abs() && (ds[k].b - a).abs() <= 2.0 * c.cfg.tol.abs() {
+                if ds[k].xv.len() != n_expected { rep.finding("oracle", &["C12"], "wrong-sample-count", input.clone(), format!("{} abscissae for x_res {} on the empty range [{:e},{:e}]", ds[k].xv.len(), c.cfg.xr, a, b)); }
+                k += 1; m += 1;
+            }
+            let _ = m;   // (no piece at all is also a legitimate answer for an empty range, e.g. when g is constant)
+            continue;
+        }
         if ds[k].a.to_bits() != a.to_bits() { rep.finding("oracle", if c.rs { &["C13"] } else { &["C11"] }, "first-piece-not-at-a", input.clone(), format!("{} vs {}", ds[k].a, a)); return; }
         while ds[k].b.to_bits() != b.to_bits() || (k + 1 < ds.len() && ds[k + 1].a.to_bits() == ds[k].b.to_bits() && ds[k].b.to_bits() != b.to_bits()) {
             if k + 1 >= ds.len() { rep.finding("oracle", if c.rs { &["C13"] } else { &["C11"] }, "last-piece-not-at-b", input.clone(), String::new()); return; }
